@@ -932,3 +932,9 @@ class C15(Check):
             return dict(input=i, note='unknown replay kind')
         finally:
             real.close()
+
+
+# the cache layer of the request object (cache_in / __setitem__ / __delitem__ / _on_env_changed / copy): an extra
+# correspondence stream and oracle shared with the other two checks that serve `cache_unobservable`
+from harness import envcachelib as _envcache  # noqa: E402
+_envcache.install(C15)
